@@ -66,6 +66,9 @@ type Outcome struct {
 	Digest     string `json:"digest,omitempty"`
 	SchedHash  string `json:"schedHash,omitempty"`
 	Tape       []int  `json:"tape,omitempty"`
+	// ReplayPlan, when set with a violation, is the reduced plan that
+	// reproduces it (e.g. the single decisive fault out of an enumeration).
+	ReplayPlan *Plan `json:"replayPlan,omitempty"`
 	// Sample is a compact rendering of the case for the evidence file.
 	Sample any `json:"sample,omitempty"`
 }
